@@ -5,6 +5,7 @@ Property theorems only.  The pools built on `SyncWrapper` are the managed pool (
 applies to them verbatim) with a `Manager::recycle` that inspects the connection.
 -/
 import DeadpoolVerif.Lemmas.SyncPools
+import DeadpoolVerif.Lemmas.SoloRun
 import DeadpoolVerif.Props.C04
 
 namespace DeadpoolVerif
@@ -65,6 +66,27 @@ theorem C15_rejected_is_replaced (s : State) (i : Nat) (t : Timeouts) (k : Nat) 
     stepGet s i t (.unreadyDetach o .retry) .run =
       some ((s.emit [.detach i o.id, .destroy i o.id]).setOp i (.get t .pop)) := by
   refine ⟨by simp [stepGet], by simp [stepGet, hl], by simp [stepGet]⟩
+
+/-- **C15 (the driver of the correspondence check is covered).** What the sequential driver
+does with one operation — start it and run it alone, `Manager::recycle` answered by the
+manager's verdict `good` on the connection — is a run of the pool model (`run?` of an explicit
+action list), and that history is honest for `spoiled id _ := ¬ good id`: the theorems above
+apply to exactly the histories the differential run compares with the real pools. -/
+theorem C15_driver_is_honest_run (good : Nat → Bool) (s s' : State) (spec : Spec) (i fuel : Nat)
+    (h : solo (fun o => good o.id) s spec fuel = some (s', i)) :
+    ∃ acts, run? s acts = some s' ∧ Honest (fun id _ => !good id) s acts := by
+  unfold solo Solo.soloOp at h
+  cases hst : step s (.start spec) with
+  | none => simp [hst] at h
+  | some s1 =>
+    simp only [hst, Option.map_some, Option.some.injEq, Prod.mk.injEq] at h
+    obtain ⟨h1, _⟩ := h
+    refine ⟨.start spec :: Solo.soloActs (env fun o => good o.id) () s1 s.ops.length fuel, ?_, ?_⟩
+    · simp only [run?, hst, Option.bind_some]
+      rw [Solo.soloWith_run]; rw [← h1]
+    · refine ⟨rfl, ?_⟩
+      simp only [hst, Option.getD_some]
+      exact Solo.soloActs_honest _ _ (Solo.sp_env_honest good) () s1 _ fuel
 
 /-! Non-vacuity: a pool of one connection; the connection is handed out, spoiled, returned;
 an honest manager rejects it and the next get receives a new connection (id 1), with the
